@@ -1,5 +1,5 @@
 use crate::interface::config::GenerateConfig;
-use crate::models::{CommandInfo, StructInfo};
+use crate::models::{CommandInfo, StructInfo, ValidatorAttributes};
 use serde::{Deserialize, Serialize};
 use std::collections::HashMap;
 use std::fs;
@@ -123,6 +123,7 @@ impl GenerationCache {
             return_type: &'a str,
             is_async: bool,
             channels: Vec<ChannelHashData<'a>>,
+            serde_rename_all: Option<String>,
         }
 
         #[derive(Serialize)]
@@ -130,6 +131,7 @@ impl GenerationCache {
             name: &'a str,
             rust_type: &'a str,
             is_optional: bool,
+            serde_rename: &'a Option<String>,
         }
 
         #[derive(Serialize)]
@@ -150,6 +152,7 @@ impl GenerationCache {
                         name: &p.name,
                         rust_type: &p.rust_type,
                         is_optional: p.is_optional,
+                        serde_rename: &p.serde_rename,
                     })
                     .collect(),
                 return_type: &cmd.return_type,
@@ -162,6 +165,7 @@ impl GenerationCache {
                         message_type: &c.message_type,
                     })
                     .collect(),
+                serde_rename_all: cmd.serde_rename_all.map(|rule| format!("{:?}", rule)),
             })
             .collect();
 
@@ -177,6 +181,7 @@ impl GenerationCache {
             file_path: &'a str,
             is_enum: bool,
             fields: Vec<FieldHashData<'a>>,
+            serde_rename_all: Option<String>,
         }
 
         #[derive(Serialize)]
@@ -185,6 +190,8 @@ impl GenerationCache {
             rust_type: &'a str,
             is_optional: bool,
             is_public: bool,
+            serde_rename: &'a Option<String>,
+            validator_attributes: &'a Option<ValidatorAttributes>,
         }
 
         // Sort by name for deterministic ordering
@@ -205,8 +212,11 @@ impl GenerationCache {
                         rust_type: &f.rust_type,
                         is_optional: f.is_optional,
                         is_public: f.is_public,
+                        serde_rename: &f.serde_rename,
+                        validator_attributes: &f.validator_attributes,
                     })
                     .collect(),
+                serde_rename_all: s.serde_rename_all.map(|rule| format!("{:?}", rule)),
             })
             .collect();
 
